@@ -26,7 +26,7 @@ type c06 struct {
 
 func init() { core.Register(&c06{}) }
 
-var c06Alphabet = []string{"Sv", "Si", "Sd", "Se", "Co", "Cx", "Cs", "Xo", "Xx", "Xs", "W"}
+var c06Alphabet = []string{"Sv", "Si", "Sj", "Sr", "Sd", "Se", "Co", "Cx", "Cs", "Xo", "Xx", "Xs", "W"}
 
 func (c *c06) ID() string    { return "C06" }
 func (c *c06) Level() string { return "exploration" }
@@ -129,13 +129,39 @@ func (c *c06) RunCase(w *core.Worker, idx int, seed uint64, res *core.CaseResult
 	ctx := context.Background()
 	m := &slotModel{}
 	const shortTO = 30 * time.Millisecond
+	// two confirmed intents the sequences build on: m2's leaf is valid only while m1 says a=on
+	for i, in := range []struct{ o, p, v string }{{"m1", "/cons/mst/a", "on"}, {"m2", "/cons/mst/b", "x"}} {
+		ti, err := ds.SdcpbTransactionIntentToInternalTI(ctx, &sdcpb.TransactionIntent{Intent: in.o, Priority: int32(90 + i),
+			Update: []*sdcpb.Update{{Path: model.Parse(in.p).ToPb(), Value: model.MkTv(in.v)}}})
+		if err != nil {
+			res.Inconclusive("C06/setup", "%v", err)
+			return
+		}
+		id := "setup" + in.o
+		if rsp, err := ds.TransactionSet(ctx, id, []*types.TransactionIntent{ti}, nil, time.Hour, false); err != nil || transactionHasErrors(rsp) {
+			res.Inconclusive("C06/setup", "%v %v", err, rsp.GetIntents())
+			return
+		}
+		if err := ds.TransactionConfirm(ctx, id); err != nil {
+			res.Inconclusive("C06/setup", "%v", err)
+			return
+		}
+		m.devSets++
+	}
 	txn := 0
 	mkIntent := func(kind string, n int) []*types.TransactionIntent {
 		req := &sdcpb.TransactionIntent{Intent: "c06", Priority: 10}
 		switch kind {
 		case "Si":
-			// validation failure: mandatory leaf of the list entry missing
+			// validation failure: mandatory leaf of the list entry missing (reported under the pseudo owner "unknown")
 			req.Update = []*sdcpb.Update{{Path: model.Parse("/cons/mlist[k=x]/opt").ToPb(), Value: model.MkTv(fmt.Sprintf("o%d", n))}}
+		case "Sj":
+			// validation failure reported under the intent itself: pattern
+			req.Update = []*sdcpb.Update{{Path: model.Parse("/cons/pat").ToPb(), Value: model.MkTv("xyz")}}
+		case "Sr":
+			// validation failure reported under "running": m1 turns a off, m2's leaf b (must ../a = 'on') is in the tree only through running
+			req.Intent, req.Priority = "m1", 90
+			req.Update = []*sdcpb.Update{{Path: model.Parse("/cons/mst/a").ToPb(), Value: model.MkTv("off")}}
 		default:
 			req.Update = []*sdcpb.Update{{Path: model.Parse("/sys/descr").ToPb(), Value: model.MkTv(fmt.Sprintf("v%d", n))}}
 		}
@@ -237,7 +263,7 @@ func (c *c06) RunCase(w *core.Worker, idx int, seed uint64, res *core.CaseResult
 					m.open, m.short = id, short
 					m.devSets++
 					opensTx = true
-				case "Si":
+				case "Si", "Sj", "Sr":
 					if err == nil && !hasErrs {
 						res.Violate("C06/invalid-accepted", "step %d: invalid intent accepted", i)
 					}
@@ -355,11 +381,20 @@ func (c *c06) RunCase(w *core.Worker, idx int, seed uint64, res *core.CaseResult
 	ds.TransactionConfirm(ctx, "final")
 }
 
+func transactionHasErrors(rsp *sdcpb.TransactionSetResponse) bool {
+	for _, ir := range rsp.GetIntents() {
+		if len(ir.GetErrors()) > 0 {
+			return true
+		}
+	}
+	return false
+}
+
 func opClass(op string) string {
 	switch op {
 	case "Sv":
 		return "set"
-	case "Si":
+	case "Si", "Sj", "Sr":
 		return "validation-failure"
 	case "Sd":
 		return "dry-run"
